@@ -24,6 +24,10 @@ LOADER = [L + m for m in ('__type_to_tag', '__savorize', '__process_node',
 STRIP = ['yatiml/util.py::strip_tags']
 C = 'yatiml/constructors.py::'
 CONSTR = [C + 'Constructor.__strip_extra_attributes',
+          C + 'Constructor.__type_matches',
+          C + 'Constructor.__check_no_missing_attributes',
+          C + 'Constructor.__type_check_attributes',
+          C + 'Constructor.__call__',
           C + 'EnumConstructor.__call__',
           C + 'UserStringConstructor.__call__',
           C + 'PathConstructor.__call__']
@@ -38,7 +42,13 @@ LOAD_TRUSTED = TRUSTED + [
     'E-RESOLVE-CORE: resolve() returns core-schema tags',
     'prefix/append locality of index-recursive spec functions '
     '(meta-theorem of the spec language)',
-    'NOT YET UNDER CONTRACT: Constructor.__call__ and its attribute type '
-    'check (__type_matches, __check_no_missing_attributes, '
-    '__type_check_attributes, __split_off_extra_attributes)',
+    'E-ARGSPEC: inspect.getfullargspec(C.__init__) is a function of the '
+    'class, its first argument is named self (bounded stand-in links it to '
+    'class_subobjects)',
+    'E-DICT: a key of a constructed dict equals a str only if it is that '
+    'str; E-ISINSTANCE: isinstance(obj, C) for user classes is an '
+    'uninterpreted relation (exact for str/int/float/bool/None/list/dict)',
+    'Constructor.__split_off_extra_attributes by assumed contract (returns a '
+    'dict) - bounded stand-in; the exact contents of the dict handed to '
+    '__init__ when the class takes _yatiml_extra are therefore bounded-only',
 ]
